@@ -5,8 +5,8 @@ from ..pse import truth
 from . import common as cm
 from .c02 import check_records, new_manifests
 
-CANDS = ["R/A/AA/AAA", "R/A/AA", "R/A", "R/AB", "R/B"]
-FILES = {"R/s.txt": 1, "R/A/a1.txt": 2, "R/A/AA/aa1.txt": 3, "R/A/AA/AAA/aaa1.txt": 4, "R/AB/ab1.txt": 5, "R/B/b1.txt": 6}
+CANDS = ["R/A/AA/AAA", "R/A/AA", "R/A", "R/AB", "R/B/AA", "R/B"]
+FILES = {"R/s.txt": 1, "R/A/a1.txt": 2, "R/A/AA/aa1.txt": 3, "R/A/AA/AAA/aaa1.txt": 4, "R/AB/ab1.txt": 5, "R/B/b1.txt": 6, "R/B/AA/baa1.txt": 7}
 
 
 def parent_of(hr, roots):
@@ -96,7 +96,7 @@ def scenario(tier):
 
 def harnesses(tier):
     return [Harness("c08-nested", scenario(tier), frontier=6, budget_s=2400,
-                    what="U2 with any subset (<=3 quick / all thorough) of 5 candidate nested roots (siblings, chain to depth 4, prefix pair A/AB) "
-                         "created deep-first or shallow-first; then create in folder mode, folder -n, or -sf on any file",
+                    what="U2 with any subset (<=3 quick / all thorough) of 6 candidate nested roots (siblings, chain to depth 4, prefix pair A/AB) "
+                         "incl. two nested roots with the same folder name (A/AA, B/AA), created deep-first or shallow-first; then create in folder mode, folder -n, or -sf on any file",
                     bounds={"candidate roots": CANDS, "files": sorted(FILES), "formats": "md5 | xxh64+c4"},
                     outside=["order of <hashlistreference> elements (C13)", "overlapping -sf selections", "ignored nested roots"])]
